@@ -130,16 +130,18 @@ def run(ctx):
         v = next(iter(vec))
         parts = Q.parts_of(v)
         rep = [p for p in parts if p[0] == "repeat"]
+        elems = []
         if rep:
-            body = rep[0][1]
-            elems = [p[1] for p in body if p[0] == "byte"]
-            if len(elems) == 1 and elems[0].op == "owf":
-                tr = Q.flat_ops(Q.trace_of(elems[0].args[1]))
-                absorbs = [d for k, d, _ in tr if k in ("ad", "key", "meta_ad") and
-                           Q.contains(d, lambda t: t.op == "range_elem")]
-                keyed = [d for k, d, _ in tr if k == "key" and Q.params(Q.leaves(d)) == {"rnd"}]
-                okc = bool(absorbs) and bool(keyed)
-                det = Q.show_trace(Q.trace_of(elems[0].args[1]), 4)
+            elems = [p[1] for p in rep[0][1] if p[0] == "byte"]
+        elif len(parts) == 1 and parts[0][0] == "base" and parts[0][1].op == "collected" and parts[0][1].args[0].op == "mapped":
+            elems = [parts[0][1].args[0].args[1]]      # (lo..hi).map(|i| ..).collect()
+        if len(elems) == 1 and elems[0].op == "owf":
+            tr = Q.flat_ops(Q.trace_of(elems[0].args[1]))
+            absorbs = [d for k, d, _ in tr if k in ("ad", "key", "meta_ad") and
+                       Q.contains(d, lambda t: t.op == "range_elem")]
+            keyed = [d for k, d, _ in tr if k == "key" and Q.params(Q.leaves(d)) == {"rnd"}]
+            okc = bool(absorbs) and bool(keyed)
+            det = Q.show_trace(Q.trace_of(elems[0].args[1]), 4)
     ctx.add("C02.R2", root + "#element-absorbs-counter", okc,
             "each derived value must be a PRF output keyed by the client randomness that absorbs its own index: %s" % det, at,
             sample=det)
